@@ -127,9 +127,42 @@ func rulePRecover(c *engine.Context) *report.Rule {
 			}
 			et := fv.Type().(*types.Pointer).Elem()
 			if isErrorType(et) {
-				if ex, ok := st.Val.(*ssa.Extract); ok && ex.Index == 0 {
-					if ta, ok := ex.Tuple.(*ssa.TypeAssert); ok && ta.X == ssa.Value(rec) && isErrorType(ta.AssertedType) {
-						// must be the named result of Parse: binding is the Alloc for result #1
+				isRecovered := func(v ssa.Value) *ssa.TypeAssert {
+					if ex, ok := v.(*ssa.Extract); ok && ex.Index == 0 {
+						if ta, ok := ex.Tuple.(*ssa.TypeAssert); ok && ta.X == ssa.Value(rec) && isErrorType(ta.AssertedType) {
+							return ta
+						}
+					}
+					return nil
+				}
+				if isRecovered(st.Val) != nil {
+					// must be the named result of Parse: binding is the Alloc for result #1
+					stored = true
+				} else if ph, isPhi := st.Val.(*ssa.Phi); isPhi {
+					// `err = choose(recovered, err)`: the recovered error on the edge that comes from
+					// the successful assertion, the result's own earlier value on the others
+					okEdges, good := 0, true
+					for i, e := range ph.Edges {
+						if ta := isRecovered(e); ta != nil {
+							fromOK := false
+							for _, dc := range append(dominatingConds(ph.Block().Preds[i]), lastCondOf(ph.Block().Preds[i], ph.Block())...) {
+								if ex, ok := dc.cond.(*ssa.Extract); ok && ex.Index == 1 && ex.Tuple == ssa.Value(ta) && dc.taken {
+									fromOK = true
+								}
+							}
+							if fromOK {
+								okEdges++
+							} else {
+								good = false
+							}
+							continue
+						}
+						if ld, ok := e.(*ssa.UnOp); ok && ld.Op == token.MUL && ld.X == ssa.Value(fv) {
+							continue
+						}
+						good = false
+					}
+					if good && okEdges > 0 {
 						stored = true
 					}
 				}
@@ -1489,4 +1522,14 @@ func noWriteBetween(a, b ssa.Instruction) bool {
 	}
 	// a loop through a's or b's block would re-execute them; require b's block not to reach a's
 	return true
+}
+
+// lastCondOf: the condition of pred's own branch when it ends in an If, with the truth of the
+// edge into succ.
+func lastCondOf(pred, succ *ssa.BasicBlock) []edgeCond {
+	ifi, ok := pred.Instrs[len(pred.Instrs)-1].(*ssa.If)
+	if !ok || len(pred.Succs) != 2 || pred.Succs[0] == pred.Succs[1] {
+		return nil
+	}
+	return []edgeCond{{cond: ifi.Cond, taken: pred.Succs[0] == succ, at: ifi}}
 }
